@@ -84,6 +84,12 @@ def wallet_history(job):
         return {'seed': seed, 'kind': kind, 'events': [], 'desc': [], 'setup_error': repr(e)}
     single = scheme == 'single'
     net = w.network
+    co = None
+    if scheme == 'multisig':
+        try:
+            co = Wallet.create(name + '_co', keys=[k1, k2], sigs_required=2, cosigner_id=0, network=network, witness_type=wt, db_uri=db_uri)
+        except Exception as e:
+            return {'seed': seed, 'kind': kind, 'events': [], 'desc': [], 'setup_error': 'co-wallet: %r' % e}
     accounts = []
     if scheme == 'hd' and rng.random() < 0.45:
         try:
@@ -173,12 +179,14 @@ def wallet_history(job):
             kind_, fee, minconf, broadcast = 'send_to', rng.choice([2000, 5000, 100000]), 0, force[0] == 'spend_most'
         if force[0] == 'send_minconf':
             kind_, fee, minconf, nchange = 'send_to', None, rng.choice([4, 5]), 0
+        if force[0] in ('spend_one', 'spend_one_replace'):
+            kind_, fee, minconf, broadcast = 'send_to', 2000, 0, True
         inkeys = []
         nchange = rng.choice([1, 1, 0, 2, 3])
         total = sum(u['value'] for u in spendable)
         explicit = []
         tainted = False
-        rbf = rng.random() < 0.3
+        rbf = rng.random() < 0.3 or force[0] in ('spend_one', 'spend_one_replace')
         q = {'fee': fee if isinstance(fee, int) else -1, 'minconf': minconf, 'inkeys': inkeys, 'sweep': kind_ == 'sweep', 'explicit': explicit,
              'above': -1, 'acct': acct,
              'feemin': net.fee_min if net.fee_min < 2000000 else 0, 'feemax': net.fee_max if net.fee_max < 2000000 else 0}
@@ -191,6 +199,8 @@ def wallet_history(job):
                     amount = max(1000, total - fee - rng.choice([0, 100, 900, 1500, 30000]))
                 if force[0] == 'send_minconf':
                     amount = rng.choice([160000, 200000, 250000])
+                if force[0] in ('spend_one', 'spend_one_replace'):
+                    amount = 100000
                 to = rng.choice(EXT + [rng.choice(keys).address]) if keys else EXT[0]
                 if rng.random() < 0.2 and keys:
                     k = rng.choice(keys)
@@ -267,7 +277,7 @@ def wallet_history(job):
                 stored.append(t.txid)
                 spent_outpoints.extend((i.prev_txid.hex(), i.output_n_int, int(i.value)) for i in t.inputs)
                 ev['raw'] = t.raw_hex()
-                if rbf and kind_ in ('send_to', 'send') and rng.random() < 0.6:
+                if rbf and kind_ in ('send_to', 'send') and (rng.random() < 0.6 if not force[0] else force[0] == 'spend_one_replace'):
                     replace.append((t, recips))
             elif tainted:
                 pass
@@ -379,6 +389,12 @@ def wallet_history(job):
     elif sc < 0.80:
         # one funding transaction with several outputs, all spent by one broadcast transaction; nothing is left to spend
         plan = ['key', 'add', 'add_same', 'add_same', 'spend_most', 'tx', 'tx', 'tx']
+    elif sc < 0.88:
+        # sibling outputs of one funding transaction spent one by one with replaceable transactions, the second one replaced
+        plan = ['key', 'add_sib', 'add_same', 'add_same', 'spend_one', 'spend_one_replace', 'tx', 'tx']
+    elif sc < 0.94 and co is not None:
+        # another wallet with the same keys in the same database spends an output
+        plan = ['key', 'add', 'add', 'co_spend', 'tx', 'tx']
     if accounts and rng.random() < 0.5:
         # funded keys whose ids alternate between the accounts: account 0, account 1, account 0 again
         plan = ['key_a0', 'add_last', 'key_a1', 'add_last', 'key_a0', 'add_last', 'key_a1', 'add_last']
@@ -391,13 +407,15 @@ def wallet_history(job):
             r = 0.0
         elif forced == 'add_last':
             r = 0.2
-        elif forced in ('add', 'add_old', 'add_young', 'add_same'):
+        elif forced in ('add', 'add_old', 'add_young', 'add_same', 'add_sib'):
             r = 0.2
         elif forced == 'update_all':
             r = 0.40
         elif forced == 'delete_funding':
             r = 0.75
-        elif forced in ('tx', 'spend_most', 'spend_most_unsent', 'send_minconf'):
+        elif forced == 'co_spend':
+            r = 0.97
+        elif forced in ('tx', 'spend_most', 'spend_most_unsent', 'send_minconf', 'spend_one', 'spend_one_replace'):
             r = 0.5
         force[0] = forced
         try:
@@ -431,6 +449,10 @@ def wallet_history(job):
                     # several outputs of one funding transaction
                     txid, n, conf = same_acct[0][0], max(x[1] for x in reports if x[0] == same_acct[0][0]) + 1, same_acct[0][5]
                     v = rng.choice([150000, 1000000, 20000])
+                if force[0] in ('add_sib', 'add_same') and plan and plan[1] == 'add_sib':
+                    v, conf = 150000, 10
+                    if force[0] == 'add_sib':
+                        txid, n = newtxid(), 0
                 if force[0] == 'add_old':
                     txid, n, v, conf = newtxid(), 0, 150000, 10
                 elif force[0] == 'add_young':
@@ -472,6 +494,29 @@ def wallet_history(job):
                 if txid in stored:
                     stored.remove(txid)
                 record({'op': 'delete', 'tnum': txnum(table, txid)}, 'transaction_delete(tx%d)' % txnum(table, txid))
+            elif forced == 'co_spend' and co is not None and reports:
+                # the co-wallet (same keys, same database) learns of one of the outputs and spends it: broadcast by IT
+                x = rng.choice([y for y in reports if not any(sp[0] == y[0] and sp[1] == y[1] for sp in spent_outpoints)] or reports)
+                have = {k.address for k in co.keys() if k.address}
+                for _ in range(12):                 # the co-wallet derives the same addresses: create keys until it has this one
+                    if x[4] in have:
+                        break
+                    have.add(co.new_key().address)
+                    have.add(co.new_key_change().address)
+                if x[4] not in have:
+                    continue
+                co.utxos_update(utxos=[{'address': x[4], 'script': '', 'confirmations': x[5], 'output_n': x[1], 'txid': x[0], 'value': x[2]}],
+                                rescan_all=False)
+                try:
+                    t = co.send_to(EXT[0], max(600, x[2] // 2), fee=2000, min_confirms=0, broadcast=True)
+                except (WalletError, TransactionError):
+                    continue
+                if not t.pushed:
+                    continue
+                ins = [[txnum(table, i.prev_txid.hex()), i.output_n_int] for i in t.inputs]
+                spent_outpoints.extend((i.prev_txid.hex(), i.output_n_int, int(i.value)) for i in t.inputs)
+                record({'op': 'co_spend', 'ins': ins},
+                       'the co-wallet broadcasts a transaction spending %s (pushed=%s)' % (['tx%d:%d' % tuple(i) for i in ins], t.pushed))
             elif r < 0.93:
                 try:
                     w.session.close()
